@@ -63,6 +63,11 @@ pub const OPS: &[&str] = &[
     "datum-eq",
     "datum-list_iter",
     "datum-into-value",
+    // the pair-wise walk through Ref::as_pair, asking every tail for its span (seed C16-g2: the
+    // span of a tail computed on demand by recursing down the rest of the list)
+    "datum-ref-walk",
+    "datum-tail-span",
+    "datum-span",
     "serde-to_value",
     "serde-from_value",
     "serde-from_str",
@@ -307,7 +312,7 @@ pub fn child_listop(c: &J) -> String {
                 std::mem::forget(e);
                 return if same { "err == returned true for different data".into() } else { "ok 0".into() };
             }
-            "parse-reader-datum" | "parse-str-datum" | "datum-drop" | "datum-clone" | "datum-eq" | "datum-list_iter" | "datum-into-value" => {
+            "parse-reader-datum" | "parse-str-datum" | "datum-drop" | "datum-clone" | "datum-eq" | "datum-list_iter" | "datum-into-value" | "datum-ref-walk" | "datum-tail-span" | "datum-span" => {
                 let t = text_of(n, dotted);
                 let parse = |t: &str| if op == "parse-str-datum" { lexpr::datum::from_str(t).expect("parse") } else { lexpr::datum::from_reader(t.as_bytes()).expect("parse") };
                 let d = parse(&t);
@@ -331,6 +336,31 @@ pub fn child_listop(c: &J) -> String {
                             return "err == returned false for two parses of the same text".into();
                         }
                         1
+                    }
+                    "datum-span" => {
+                        let sp = d.span();
+                        (sp.end().line() >= sp.start().line()) as usize
+                    }
+                    "datum-tail-span" => {
+                        let r = d.as_ref();
+                        let (car, cdr) = r.as_pair().expect("as_pair");
+                        let (a, b) = (car.span(), cdr.span());
+                        let _ = (a.start(), b.start(), b.end());
+                        1
+                    }
+                    "datum-ref-walk" => {
+                        let mut r = d.as_ref();
+                        let mut k = 0usize;
+                        while let Some((car, cdr)) = r.as_pair() {
+                            k += 1;
+                            // spans of a sample of the cells (every cell would be quadratic if a
+                            // span were computed by walking, which is not for this check to say)
+                            if k < 4 || k % 65536 == 0 {
+                                let _ = (car.span(), cdr.span(), cdr.list_iter().is_some());
+                            }
+                            r = cdr;
+                        }
+                        k
                     }
                     "datum-list_iter" => {
                         let mut it = d.list_iter().expect("list_iter");
@@ -637,7 +667,8 @@ fn judge(acc: &mut Acc, rank: u64, c: &J, obs: &ChildObs) {
                 // list_iter-exhaust continues past the first None and counts the tail of a dotted list;
                 // the datum loop stops at the first None
                 "list_iter-exhaust" => Some(if dotted { n + 1 } else { n }),
-                "datum-list_iter" => Some(n),
+                "datum-list_iter" | "datum-ref-walk" => Some(n),
+                "datum-tail-span" | "datum-span" => Some(1),
                 "iter-half" | "list_iter-half" | "into_iter-half" => Some(n / 2),
                 "get-last" | "index-last" | "eq" | "datum-eq" => Some(1),
                 "get-usize-max" | "alist-miss-str" | "alist-miss-value" => Some(0),
